@@ -55,6 +55,15 @@ macro_rules! ok {
   };
 }
 
+/// Error types go where errors ordinarily go: across threads, into `Box<dyn Error + Send + Sync>` (what `anyhow` and most
+/// application error types require). Which protocols are enabled must not change that.
+fn errors_are_ordinary<E: std::error::Error + Send + Sync + 'static>() {
+  fn boxed<E: std::error::Error + Send + Sync + 'static>(r: Result<(), E>) -> Result<(), Box<dyn std::error::Error + Send + Sync>> {
+    Ok(r?)
+  }
+  let _ = boxed::<E>(Ok(()));
+}
+
 // what client code ordinarily does with keys - written so that it relies on there being ONE obvious reading of each call;
 // a feature that adds a second `AsRef` / `From` / `Deref` path to these types breaks such code (monotonicity)
 macro_rules! downstream_idioms {
@@ -139,6 +148,17 @@ mod core_layer {
         let n = ok!(Key::<32>::try_from(NONCE), "nonce");
         let nonce = PasetoNonce::<$V, Local>::from(&n);
         downstream_idioms!(key, n);
+        errors_are_ordinary::<PasetoError>();
+        {
+          // one core builder asked twice with the same inputs: the same token twice
+          let mut b = Paseto::<$V, Local>::builder();
+          b.set_payload(Payload::from(MSG)).set_footer(Footer::from(FOOT)).set_implicit_assertion(ImplicitAssertion::from(ASSERT));
+          let first = ok!(b.try_encrypt(&key, &nonce), concat!($label, " core encrypt (first of two)"));
+          let second = ok!(b.try_encrypt(&key, &nonce), concat!($label, " core encrypt (second of two)"));
+          if first != second {
+            fail(concat!($label, " core: the second token of one builder differs from the first"));
+          }
+        }
         let token = ok!(
           Paseto::<$V, Local>::builder()
             .set_payload(Payload::from(MSG))
@@ -268,6 +288,17 @@ mod generic_layer {
       if json["sub"] != "smoke subject" || json["answer"] != 42 || !token.starts_with(concat!($label, ".")) {
         fail(concat!($label, " generic round trip mismatch"));
       }
+      // the builder is asked again: the second token must serve like the first (same footer, same assertion)
+      let again = ok!(b.$build(&$sk), concat!($label, " generic second build"));
+      let mut p = GenericParser::<$V, $P>::default();
+      p.check_claim(SubjectClaim::from("smoke subject")).set_footer(Footer::from(FOOT));
+      body!(@assert_p p, $with_assertion);
+      let json = ok!(p.parse(&again, &$pk), concat!($label, " generic parse of the second token of one builder"));
+      if json["sub"] != "smoke subject" || json["answer"] != 42 {
+        fail(concat!($label, " generic second token mismatch"));
+      }
+      errors_are_ordinary::<GenericBuilderError>();
+      errors_are_ordinary::<GenericParserError>();
       say(concat!("OK ", $label, " generic"));
     }};
     (@assert_b $b:ident, true) => { $b.set_implicit_assertion(ImplicitAssertion::from(ASSERT)); };
@@ -317,6 +348,16 @@ mod prelude_layer {
       if json["aud"] != "smoke audience" || json["answer"] != 42 || !json["exp"].is_string() || !token.starts_with(concat!($label, ".")) {
         fail(concat!($label, " prelude round trip mismatch"));
       }
+      let again = ok!(b.build(&$sk), concat!($label, " prelude second build"));
+      let mut p = PasetoParser::<$V, $P>::default();
+      p.check_claim(AudienceClaim::from("smoke audience")).set_footer(Footer::from(FOOT));
+      body!(@assert p, $with_assertion);
+      let json = ok!(p.parse(&again, &$pk), concat!($label, " prelude parse of the second token of one builder"));
+      if json["aud"] != "smoke audience" || json["answer"] != 42 {
+        fail(concat!($label, " prelude second token mismatch"));
+      }
+      errors_are_ordinary::<GenericBuilderError>();
+      errors_are_ordinary::<GenericParserError>();
       say(concat!("OK ", $label, " prelude"));
     }};
     (@assert $b:ident, true) => { $b.set_implicit_assertion(ImplicitAssertion::from(ASSERT)); };
